@@ -38,7 +38,7 @@ ASSUMPTIONS = [
     'an included file is treated as pasted text: open conditionals and the mute depth continue across the boundary',
     'an #unmute/#emit while nothing is muted has no effect: the mute depth never goes below zero (pinned from the tree, no document states it)',
 ]
-BUDGET = {'quick': 1600, 'thorough': 60000}      # machines; each evaluates several prefixes
+BUDGET = {'quick': 3200, 'thorough': 60000}      # machines; each evaluates several prefixes
 LEVEL_TEXT = ('Exploration of directive histories with a stateful generator: the guarantee quantifies over every '
               'directive sequence and definition order; rule-based generation with preconditions reaches deep nesting, '
               'definitions inside the block that tests them, and side effects in unselected branches, and shrinks a '
